@@ -478,6 +478,13 @@ func specs(c *runner.Ctx) []spec {
 		out = append(out, spec{space: "prefix " + a, rule: "prefix=" + a, rec: strRec(func(s string) bool { return len(s) >= len(a) && s[:len(a)] == a }), gen: genStrings([]string{"a", "b", "中"}, 3)})
 		out = append(out, spec{space: "suffix " + a, rule: "suffix=" + a, rec: strRec(func(s string) bool { return len(s) >= len(a) && s[len(s)-len(a):] == a }), gen: genStrings([]string{"a", "b", "中"}, 3)})
 	}
+	// options that hold '/' (URLs, paths): one literal string, not a list of alternatives
+	for _, a := range []string{"http://", "/usr/", "/", "a/b", "//", "a/"} {
+		a := a
+		vals := genList("http://x", "http:x", "http:/x", "/usr/bin", "usr", "/usr", "usr/", "/", "a/b", "a/bx", "xa/b", "bx", "ax", "a", "b", "//", "x//", "a/", "xa/", "a")
+		out = append(out, spec{space: "prefix " + a, rule: "prefix=" + a, rec: strRec(func(s string) bool { return strings.HasPrefix(s, a) }), gen: vals})
+		out = append(out, spec{space: "suffix " + a, rule: "suffix=" + a, rec: strRec(func(s string) bool { return strings.HasSuffix(s, a) }), gen: vals})
+	}
 	// file / dir (fixture built per worker)
 	fx := fixture()
 	out = append(out, spec{space: "file", rule: "file", rec: func(v reflect.Value) (bool, bool) { return fx[v.String()] == 'f', true }, gen: func(emit func(reflect.Value)) {
